@@ -161,7 +161,11 @@ def lemma_block_job(ctx):
                 ctx.fail("block job: no panic unless the status channel is broken", "%s %s" % (p.msg, names_t))
             continue
         if p.status == "bound":
-            n_bound += 1     # more short counts in one block than the unrolling bound: outside the claim
+            n_bound += 1     # more short counts in one block than the unrolling bound: outside the claim -- except for progress
+            for e in copies[:-1]:
+                if not is_errev(e):
+                    ctx.lemma(eng, "C07: a block job issues another copy request only after the previous one made progress (a zero count is never retried)",
+                              p.pc, e.ret.t >= 1, info={"trace": names_t})
             continue
         if p.status != "return":
             ctx.fail("block job: path ends in return", "%s %s" % (p.status, p.msg))
@@ -181,6 +185,11 @@ def lemma_block_job(ctx):
                 failed = True
                 break
             done = done + e.ret.t
+        # C07: the retry loop only goes round after progress -- a zero count (EOF) must end the job, never be retried
+        for e in copies[:-1]:
+            if not is_errev(e):
+                ctx.lemma(eng, "C07: a block job issues another copy request only after the previous one made progress (a zero count is never retried)",
+                          p.pc, e.ret.t >= 1, info={"trace": names_t})
         errors_sent = [e for e in sends if isinstance(e.args[0], AggV) and e.args[0].vname == "Error"]
         copied_sent = [e for e in sends if isinstance(e.args[0], AggV) and e.args[0].vname == "Copied"]
         if failed:
